@@ -241,3 +241,15 @@ def _labtxt(k):
     if k[0] == "tok":
         return "the index the table came with (not known to be 0..n-1)"
     return k[0]
+
+
+def same_rows_same_order(ctx, q, got, src, what, node=None, module=None):
+    """E6 as an order rule: `got` (table or column) must live in the row space of `src` -- the same particles in the same order,
+    neither sorted nor filtered nor re-concatenated on the way"""
+    gs, ss = getattr(got, "space", None), getattr(src, "space", None)
+    ok = gs is not None and ss is not None and gs.same(ss)
+    ctx.count(1, {"order rule": what, "result rows": gs.chain() if gs is not None else None, "source rows": ss.chain() if ss is not None else None})
+    if not ok:
+        ctx.finding(q, what, f"{what}: the result must hold the same particles in the same order as the source, but its rows are "
+                    f"'{gs.chain() if gs is not None else 'unknown'}' (source: '{ss.chain() if ss is not None else 'unknown'}')", node, module)
+    return ok
